@@ -1,6 +1,6 @@
 """C09 — every emitted plan is a well-formed, forward-only dataflow program."""
 import copy, json, re
-from tools.harness import common, planwalk as pw, plangen
+from tools.harness import common, planwalk as pw, plangen, catshape
 
 ID = 'C09'
 TARGETS = ['MindsVerif.Props.C09']
@@ -10,7 +10,12 @@ THEOREMS = [P + 'C09_partial', P + 'C09_plan_select', P + 'C09_add_step', P + 'C
             # history / regression: the former add_plan_step (fixed = false) and the live one on the same inputs
             P + 'C09_join_unrepaired', P + 'C09_regress_unrepaired_plan', P + 'C09_regress_unrepaired_1',
             P + 'C09_regress_unrepaired_2', P + 'C09_regress_unrepaired_3', P + 'C09_regress_repaired_plan',
-            P + 'C09_regress_repaired_1', P + 'C09_regress_repaired_3']
+            P + 'C09_regress_repaired_1', P + 'C09_regress_repaired_3',
+            # round 5: catalog record shapes (Model/Catalog.lean)
+            P + 'C09_catalog', P + 'C09_catalog_total', P + 'C09_catalog_live', P + 'C09_integration',
+            P + 'C09_catalog_not_full_live', P + 'C09_witness_r5_1', P + 'C09_witness_r5_1b', P + 'C09_witness_r5_1c',
+            P + 'C09_witness_r5_1d', P + 'C09_witness_r5_2', P + 'C09_witness_r5_3', P + 'C09_witness_r5_3b',
+            P + 'C09_witness_r5_4']
 ASSUME = [
     'theorems cover QueryPlan.add_step, the step-stack / partition bookkeeping of PlanJoinTablesQuery (live variant: '
     'close_partition before a step that cannot be partitioned; pinned by the obligation pin:add_plan_step-variant-repaired), '
@@ -28,6 +33,15 @@ ASSUME = [
     'check_single_integration call, observed by wrapping those two methods on the planner instance',
     'C09_error_class (from any plan) assumes that the planners of sub-select operands raise user-level errors only; '
     'C09_join_unrepaired and the C09_regress_unrepaired_* theorems describe the FORMER add_plan_step, not live code',
+    'catalogs: the look-ups into predictor-metadata / integration records are modelled over every value shape '
+    '(Model/Catalog.lean: absent, None, booleans, numbers, strings, lists of strings, {}) for the keys the planner reads today '
+    '(integration_name, timeseries, order_by_column, group_by_columns, window, to_predict; integration type) and three '
+    'statement families (table JOIN model in either order with a WHERE on one or two columns / LIMIT, table JOIN model JOIN '
+    'table, SELECT FROM model); tie = correspondence stream `catalog`, which also decides which variant of the model '
+    '(code as it is / with fixes C09_r5_1..4) the library follows.  The documented domain assumes that integration_name, when '
+    'a string, names the project under which the query addresses the model, and that `name` keys are strings.  Keys that the '
+    'planner starts to read are found by scanning its sources at run time (catshape.scan_keys) and varied by the probe, but '
+    'are `other` keys (ignored) in the Lean model until it is extended',
 ]
 
 
@@ -96,8 +110,26 @@ def kf_match(k, f):
         return (set(f.get('details', [])) <= set(sig.get('details', [])) and bool(f.get('details'))
                 and bool(f.get('fallthrough_shape')))
     if f.get('code') == 'internal':
-        return sig.get('site') == f.get('site') and re.search(sig.get('msg_re', '^$'), pw.norm_msg(f.get('msg', ''))) is not None
+        # `fact`: causal attribution — an alternative is only recognised on a catalog that has the shape it is about
+        alts = sig.get('any_of') or [dict(site=sig.get('site'), msg_re=sig.get('msg_re', '^$'))]
+        return any(a.get('site') == f.get('site') and re.search(a.get('msg_re', '^$'), pw.norm_msg(f.get('msg', ''))) is not None
+                   and (not a.get('fact') or a['fact'] in f.get('shape_facts', []))
+                   for a in alts)
     return False
+
+
+def cat_impl_line(case):
+    """the real planner on a case of the stream `catalog`; internal errors carry their exception class"""
+    try:
+        q = pw.parse(case['sql'])
+    except Exception as e:
+        return 'parse-fail %s' % str(e)[:80]
+    r = pw.run_planner(q, case['catalog'])
+    if r['kind'] == 'plan':
+        return pw.canon(pw.abstract_plan(r['steps']), pw.num_of(getattr(r['answer'], 'step_num', None)))
+    if r['kind'] == 'user-error':
+        return 'err ' + {'PlanningException': 'planning', 'NotImplementedError': 'notimpl'}[r['exc']]
+    return 'err internal ' + r['site']['exc']
 
 
 def run(chk):
@@ -113,6 +145,8 @@ def run(chk):
             _, f = pw.probe(w['sql'], cats[w['catalog']])
             if f and f.get('code') == 'inv':
                 f['fallthrough_shape'] = pw.fallthrough_shape(w['sql'], cats[w['catalog']])
+            if f:
+                f['shape_facts'] = catshape.facts(cats[w['catalog']])
             k['_reproduced'] = bool(f and kf_match(k, f))
     # ---- correspondence: model vs real planner on skeleton-generated join queries
     rng = common.rng_for(chk.seed, 'C09/corr')
@@ -193,12 +227,60 @@ def run(chk):
         chk.corr_result('cte_lookup', len(cte_cases), len(bad), first, d)
     except Exception as e:
         chk.oblige('corr:cte_lookup', 'correspondence', False, 'driver failed: %s' % e)
+    # ---- correspondence: the catalog look-ups (Model/Catalog.lean) on record shapes x metadata forms x statements.
+    # The model has one flag per proposed repair (fixes/C09_r5_1..4.diff); every combination is run and the implementation
+    # must agree with ONE of them on ALL cases (the code as it is = all flags off; C09_catalog / C09_catalog_live /
+    # C09_catalog_total say what holds for which combination).
+    shape_cases = []
+    try:
+        rng = common.rng_for(chk.seed, 'C09/catalog')
+        shape_cases = [catshape.cat_case(rng) for _ in range(600 if quick else 12000)]
+        lines, at = [], []
+        for c in shape_cases:
+            ls = catshape.cat_lines(c)
+            at.append((len(lines), ls))
+            lines += ls
+        outs = common.lean_run('Catalog', lines)
+        impl = [cat_impl_line(c) for c in shape_cases]
+        miss = {}        # (kind, flags) -> list of (case, model, impl)
+        for c, (a, ls), i in zip(shape_cases, at, impl):
+            chk.count(('catalog', c['sql'], c['rest']))
+            for j, l in enumerate(ls):
+                m = pw.canon_model_line(outs[a + j])
+                bucket = miss.setdefault((c['kind'], l.split(' ')[1]), [])
+                if m != i:
+                    bucket.append((c, m, i))
+        d = {}
+        diverged, first = 0, None
+        for kind in ('cat', 'int'):
+            cand = sorted((len(v), k[1]) for k, v in miss.items() if k[0] == kind)
+            if not cand:
+                continue
+            n_bad, flags = cand[0]
+            d['variant_matched/' + kind] = flags + ' (flags ts,target,ns,itype; 0 = code as it is, 1 = with fixes/C09_r5_*.diff)'
+            diverged += n_bad
+            if n_bad and first is None:
+                c, m, i = miss[(kind, flags)][0]
+                first = dict(sql=c['sql'], catalog=c['catalog'], model_input='%s %s %s' % (kind, flags, c['rest']),
+                             model=m, impl=i, variant=flags)
+        for c, i in zip(shape_cases, impl):
+            key = 'catalog/%s/%s' % (c['shape'], ' '.join(i.split(' ')[:3]) if i.startswith('err') else 'plan')
+            d[key] = d.get(key, 0) + 1
+        d['keys_scanned'] = json.dumps(catshape.keys()['scanned'])
+        chk.corr_result('catalog', len(shape_cases), diverged, first, d)
+        c0 = shape_cases[0]
+        chk.samples.append(dict(sql=c0['sql'], catalog=c0['catalog'], model=pw.canon_model_line(outs[0]), stream='catalog'))
+    except Exception as e:
+        chk.oblige('corr:catalog', 'correspondence', False, 'driver failed: %s' % e)
     # ---- impl-level probe: invariant + exception class on every real plan of the broad stream
     rng = common.rng_for(chk.seed, 'C09/probe')
     pdist = {}
     stream = [(s, c) for (s, c) in plangen.FIXED] + [(c['sql'], c['cat']) for c in cases] + \
         [(c['sql'], c['cat']) for c in cte_cases] + \
-        list(plangen.probe_stream(rng, n_probe))
+        list(plangen.probe_stream(rng, n_probe, shapes=True)) + \
+        list(catshape.systematic(chk.seed if isinstance(chk.seed, int) else 0))     # (single-key edit) x (statement skeleton)
+    cats.update({'#%d' % i: c['catalog'] for i, c in enumerate(shape_cases)})
+    stream += [(c['sql'], '#%d' % i) for i, c in enumerate(shape_cases)]
     for sql, cname in stream:
         out, f = pw.probe(sql, cats[cname])
         chk.count(('probe', sql, cname))
@@ -213,7 +295,9 @@ def run(chk):
             f['catalog_name'] = cname
             if f.get('code') == 'inv':
                 f['fallthrough_shape'] = pw.fallthrough_shape(sql, cats[cname])
-            f.pop('catalog', None)
+            f['shape_facts'] = catshape.facts(cats[cname])
+            if not cname.startswith('#'):
+                f.pop('catalog', None)      # rebuilt from its name on replay; catalogs of the stream `catalog` are kept
             chk.classify(f, kf_match)
             chk.fail(f)
     chk.corr.setdefault('plan_join', {}).setdefault('distribution', {}).update(pdist)
@@ -223,6 +307,9 @@ def run(chk):
                                     'C09_join : stepsOK 0 plan → TreeOK plan.length t → params ok → the same for planJoin true t wrap params plan; '
                                     'C09_cte_lookup : (∀ m, k.test m = k.fetch m) → … → the same for planTableRef k dict name params plan; '
                                     'C09_error_class : leavesAll OperandNoInt t → planJoinTables fixed t plan is ok or a user-level error; C09_add_step'))
+    chk.samples.append(dict(theorem='C09_catalog : lowerName pns = lowerName proj → NsOK proj r → ShapeOK fx form r → stepsOK 0 plan → '
+                                    'C09_body (planCat fx form proj pns r q) plan;  C09_catalog_total : C09_catalog_full CatFix.repaired;  '
+                                    'C09_catalog_not_full_live : ¬ C09_catalog_full CatFix.live (witnesses C09_witness_r5_*)'))
     chk.samples.append(dict(theorem='history: C09_join_unrepaired (former add_plan_step, under noFallThrough), C09_regress_unrepaired_plan / _1 / _2 / _3 '
                                     '(what it emitted in the excluded class), C09_regress_repaired_plan / _1 / _3 (the live variant on the same inputs)'))
     return chk.finish(assumptions=ASSUME)
@@ -235,6 +322,7 @@ def replay(path):
         print(json.dumps(data, indent=1)[:3000])
         return 1
     cats = plangen.probe_catalogs()
-    _, r = pw.probe(f['sql'], cats[f['catalog_name']])
+    cat = f['catalog'] if f.get('catalog_name', '').startswith('#') else cats[f['catalog_name']]
+    _, r = pw.probe(f['sql'], cat)
     print('REPRODUCED' if r else 'not reproduced', json.dumps({k: v for k, v in (r or f).items() if k != 'catalog'}, default=str)[:900])
     return 1 if r else 0
